@@ -7,12 +7,16 @@ Import ListNotations.
 Section SafetySteps.
   Variables c0 c1 : list nat.
   Hypothesis Hcfg : c0 <> [] \/ c1 <> [].
+  (* fixed membership: the family of configurations is the single configuration (c0, c1) *)
+  Let F := [(c0, c1)].
+  Let HF : inter_family F := inter_family_single c0 c1 Hcfg.
+  Let HinF : In (c0, c1) F := or_introl eq_refl.
 
   Lemma x_commit_le_len : forall x, xreachable c0 c1 x -> forall y,
     n_commit (x_nodes x y) <= length (n_log (x_nodes x y)).
   Proof.
     intros x Hx y. destruct (x_inv c0 c1 Hcfg x Hx) as (s & I & Hn & _). rewrite <- (Hn y).
-    apply (hK9 _ _ _ I y).
+    apply (hK9 _ _ I y).
   Qed.
 
   Lemma xstep_nodes : forall x x', xstep c0 c1 x x' ->
@@ -47,7 +51,8 @@ Section SafetySteps.
               n_log (fst (handle_snapshot id m n0)) = n_log n \/
               (n_log (fst (handle_snapshot id m n0)) = m_ents m /\ n_commit n < m_index m)).
     { intros n0 Hl0 Hc0. unfold handle_snapshot.
-      destruct (m_index m <=? n_commit n0) eqn:E1; [left; exact Hl0|]. apply Nat.leb_gt in E1.
+      destruct ((m_index m <=? n_commit n0) || m_reject m) eqn:E1; [left; exact Hl0|].
+      apply orb_false_iff in E1 as [E1 _]. apply Nat.leb_gt in E1.
       destruct (term_at (n_log n0) (m_index m) =? m_logterm m).
       - destruct (commit_to (n_log n0) (n_commit n0) (m_index m)); left; exact Hl0.
       - right. cbn [fst n_log]. split; [reflexivity|lia]. }
@@ -84,11 +89,11 @@ Section SafetySteps.
       destruct (snap_log_cases id m (x_nodes x id) Hty) as [H|(H1 & H2 & H3)]; cbn zeta in *; [rewrite H; reflexivity|].
       rewrite H1.
       destruct (x_inv c0 c1 Hcfg x Hx) as (s & I & Hn & Hmsgs). rewrite <- Hmsgs in Hm. rewrite <- (Hn id) in *.
-      destruct (hW13 _ _ _ I m Hm Hty) as (HXne & Hents & Hlen & _ & _).
-      destruct (hK9 _ _ _ I id) as [H9a H9b]. unfold nd in H9a, H9b.
+      destruct (hW13 _ _ I m Hm Hty) as (HXne & Hents & Hlen & _ & _).
+      destruct (hK9 _ _ I id) as [H9a H9b]. unfold nd in H9a, H9b.
       rewrite Hents. rewrite firstn_firstn. rewrite Nat.min_l by lia.
       destruct H9b as [Hz|(t0 & k0 & Ht0 & Hc0 & Hk0 & Hf)]; [rewrite Hz; reflexivity|].
-      destruct (LC_le c0 c1 Hcfg s I t0 k0 (m_term m) Hc0 ltac:(lia) HXne) as [_ Hhas].
+      destruct (LC_le F HF s I t0 k0 (m_term m) Hc0 ltac:(lia) HXne) as [_ Hhas].
       rewrite Hf. apply (firstn_agree_le _ _ _ k0); [exact Hhas|exact Hk0].
   Qed.
 
@@ -134,13 +139,13 @@ Section SafetySteps.
   Qed.
 End SafetySteps.
 
-(* ------------------------------------------------------------------ election safety over time *)
-Section ElectionForever.
-  Variables c0 c1 : list nat.
-  Hypothesis Hcfg : c0 <> [] \/ c1 <> [].
+(* ------------------------------------------------------------------ the winner of a term is stable *)
+Section LofStable.
+  Variable F : list (list nat * list nat).
+  Hypothesis HF : inter_family F.
 
   (* the recorded winner of a term never changes *)
-  Lemma lof_stable_step : forall s s', Inv c0 c1 s -> mstep c0 c1 s s' ->
+  Lemma lof_stable_step : forall s s', Inv F s -> mstep F s s' ->
     forall t l, lof s t = Some l -> lof s' t = Some l.
   Proof.
     intros s s' I H t l Hl. destruct H; try exact Hl.
@@ -148,32 +153,44 @@ Section ElectionForever.
       cbn [set_leader_log set_node lof]. destruct (Nat.eq_dec t (n_term (nodes s id))) as [->|Ht];
         [|rewrite upd_other by exact Ht; exact Hl].
       rewrite upd_same. f_equal.
-      assert (Hq : Qr c0 c1 (votedp s (n_term (nodes s id)) id)).
-      { unfold tally in H0. apply (proj1 (joint_vote_result_spec c0 c1 _)) in H0.
-        eapply Qr_mono; [|exact H0]. intros x Hx. unfold granted in Hx. unfold votedp. apply opt_nat_eqb_eq.
-        apply (hA5 _ _ _ I id x H). unfold nd. destruct (n_votes (nodes s id) x) as [[|]|]; try discriminate. reflexivity. }
-      pose proof (hA6a _ _ _ I _ l Hl) as Hq2.
-      destruct (Qr_inter c0 c1 Hcfg _ _ Hq Hq2) as (v & Hv1 & Hv2). unfold votedp in *.
+      assert (Hq : Qr F (votedp s (n_term (nodes s id)) id)).
+      { match goal with Hw : tally _ _ _ = VoteWon, Hin : In cfg F, Hr : n_role _ = Candidate |- _ =>
+          unfold tally in Hw; apply (proj1 (joint_vote_result_spec (fst cfg) (snd cfg) _)) in Hw;
+          eapply Qr_mono; [|exact (Qr_intro F cfg _ Hin Hw)]; intros x Hx; unfold granted in Hx; unfold votedp; apply opt_nat_eqb_eq;
+          apply (hA5 _ _ I id x Hr); unfold nd; destruct (n_votes (nodes s id) x) as [[|]|]; try discriminate; reflexivity end. }
+      pose proof (hA6a _ _ I _ l Hl) as Hq2.
+      destruct (Qr_inter F HF _ _ Hq Hq2) as (v & Hv1 & Hv2). unfold votedp in *.
       apply opt_nat_eqb_eq in Hv1. apply opt_nat_eqb_eq in Hv2. congruence.
     - (* propose *)
       cbn [set_leader_log set_node lof]. destruct (Nat.eq_dec t (n_term (nodes s id))) as [->|Ht];
         [|rewrite upd_other by exact Ht; exact Hl].
-      rewrite upd_same. pose proof (hA6b _ _ _ I id H) as Hb. unfold nd in Hb. congruence.
+      rewrite upd_same.
+      match goal with Hr : n_role _ = Leader |- _ => pose proof (hA6b _ _ I id Hr) as Hb end. unfold nd in Hb. congruence.
   Qed.
 
-  Lemma lof_stable : forall s s', mreachable c0 c1 s -> msteps c0 c1 s s' ->
+  Lemma lof_stable : forall s s', mreachable F s -> msteps F s s' ->
     forall t l, lof s t = Some l -> lof s' t = Some l.
   Proof.
     intros s s' Hr H. induction H as [|s1 s2 H1 IH Hs]; intros t l Hl; [exact Hl|].
     apply (lof_stable_step s1 s2); [|exact Hs|apply IH; exact Hl].
-    apply (mreachable_inv c0 c1 Hcfg). eapply msteps_reachable; eassumption.
+    apply (mreachable_inv F HF). eapply msteps_reachable; eassumption.
   Qed.
+End LofStable.
+
+(* ------------------------------------------------------------------ election safety over time *)
+Section ElectionForever.
+  Variables c0 c1 : list nat.
+  Hypothesis Hcfg : c0 <> [] \/ c1 <> [].
+  (* fixed membership: the family of configurations is the single configuration (c0, c1) *)
+  Let F := [(c0, c1)].
+  Let HF : inter_family F := inter_family_single c0 c1 Hcfg.
+  Let HinF : In (c0, c1) F := or_introl eq_refl.
 
   Lemma xsteps_sim : forall s x x', xsim s x -> xsteps c0 c1 x x' ->
-    exists s', msteps c0 c1 s s' /\ xsim s' x'.
+    exists s', msteps F s s' /\ xsim s' x'.
   Proof.
     intros s x x' Hs H. induction H as [|x1 x2 _ [s1 [H1 Hs1]] Hx]; [exists s; split; [apply MS_refl|exact Hs]|].
-    destruct (xstep_sim c0 c1 s1 x1 x2 Hs1 Hx) as (s2 & H2 & Hs2). exists s2.
+    destruct (xstep_sim c0 c1 F HinF s1 x1 x2 Hs1 Hx) as (s2 & H2 & Hs2). exists s2.
     split; [eapply msteps_trans; eassumption|exact Hs2].
   Qed.
 
@@ -184,13 +201,13 @@ Section ElectionForever.
       n_term (x_nodes x a) = n_term (x_nodes x' b) -> a = b.
   Proof.
     intros x x' Hx Hsteps a b Ha Hb Ht.
-    destruct (xreachable_sim c0 c1 x Hx) as (s & Hr & Hs).
+    destruct (xreachable_sim c0 c1 F HinF x Hx) as (s & Hr & Hs).
     destruct (xsteps_sim s x x' Hs Hsteps) as (s' & Hms & Hs').
-    pose proof (mreachable_inv c0 c1 Hcfg s Hr) as I.
-    pose proof (mreachable_inv c0 c1 Hcfg s' (msteps_reachable c0 c1 s s' Hr Hms)) as I'.
+    pose proof (mreachable_inv F HF s Hr) as I.
+    pose proof (mreachable_inv F HF s' (msteps_reachable F s s' Hr Hms)) as I'.
     destruct Hs as [Hn _]. destruct Hs' as [Hn' _].
     rewrite <- (Hn a) in Ha, Ht. rewrite <- (Hn' b) in Hb, Ht.
-    pose proof (hA6b _ _ _ I a Ha) as La. pose proof (hA6b _ _ _ I' b Hb) as Lb. unfold nd in La, Lb.
-    pose proof (lof_stable s s' Hr Hms _ _ La) as La'. rewrite Ht in La'. congruence.
+    pose proof (hA6b _ _ I a Ha) as La. pose proof (hA6b _ _ I' b Hb) as Lb. unfold nd in La, Lb.
+    pose proof (lof_stable F HF s s' Hr Hms _ _ La) as La'. rewrite Ht in La'. congruence.
   Qed.
 End ElectionForever.
